@@ -250,6 +250,8 @@ class Tree:
             nstyles, special = 0, 1.0
         for _ in range(nstyles):
             sid = 's%d' % self.new()
+            if rng.random() < 0.2:
+                sid += '[a] z'  # an attribute selector and a descendant: more than one token for the parser of the combined sheet
             urls = []
             for _ in range(rng.randint(0, 2)):
                 k, f = rng.choice(self.url_forms)
@@ -273,7 +275,8 @@ class Tree:
             if it[0] == 'import':
                 out.append('@import "%s"%s;' % (it[1], ' ' + it[2] if it[2] else ''))
             elif it[0] == 'style':
-                out.append('%s{top:0;%s}' % (it[1], ';'.join('background:url(%s)' % u for u in it[2])))
+                # (selectors are written with padding inside the brackets: the same selector to every parser, also the one that drops comments)
+                out.append('%s{top:0;%s}' % (it[1].replace('[a]', '[ a ]'), ';'.join('background:url(%s)' % u for u in it[2])))
             elif it[0] == 'fontface':
                 out.append('@font-face{font-family:%s;src:url(%s)}' % (it[1], it[2][0]))
             elif it[0] == 'media':
@@ -579,11 +582,11 @@ class _ReplayTree:
         self.files = {}
         for url, text in files.items():
             items = []
-            for m in re.finditer(r'@import "([^"]*)"( [^;]*)?;|(\w+)\{top:0;([^}]*)\}|@font-face\{font-family:(\w+);src:url\(([^)]*)\)\}|@media (\w+)\{(\w+)\{background:url\(([^)]*)\)\}\}|@page\{background:url\(([^)]*)\)\}', text):
+            for m in re.finditer(r'@import "([^"]*)"( [^;]*)?;|(\w+(?:\[ a \] z)?)\{top:0;([^}]*)\}|@font-face\{font-family:(\w+);src:url\(([^)]*)\)\}|@media (\w+)\{(\w+)\{background:url\(([^)]*)\)\}\}|@page\{background:url\(([^)]*)\)\}', text):
                 if m.group(1) is not None:
                     items.append(('import', m.group(1), (m.group(2) or '').strip() or None, urljoin(url, m.group(1))))
                 elif m.group(3):
-                    items.append(('style', m.group(3), re.findall(r'url\(([^)]*)\)', m.group(4))))
+                    items.append(('style', m.group(3).replace('[ a ]', '[a]'), re.findall(r'url\(([^)]*)\)', m.group(4))))
                 elif m.group(5):
                     items.append(('fontface', m.group(5), [m.group(6)]))
                 elif m.group(7):
